@@ -444,7 +444,10 @@ def frac_str(f):
 
 
 def driver_line(modname, c, fn):
-    return ' '.join([modname, c.s['key']] + [frac_str(x) for x in c.G] + [frac_str(Fraction(c.smin) ** 2), frac_str(Fraction(c.smax) ** 2), fn])
+    # the model compares squares: sintlmin < s  <=>  sgn(sintlmin)*sintlmin^2 < s^2  for every real sintlmin and s >= 0 (a negative lower
+    # bound is passed as a negative "square": every reflection is above it)
+    smin = Fraction(c.smin)
+    return ' '.join([modname, c.s['key']] + [frac_str(x) for x in c.G] + [frac_str(smin ** 2 if smin >= 0 else -(smin ** 2)), frac_str(Fraction(c.smax) ** 2), fn])
 
 
 def parse_driver(ans):
